@@ -92,7 +92,17 @@ class C05(Check):
             flipped.append(op2)
         order_first = rng.random() < 0.5
         reads = (flipped + reads) if order_first else (reads + flipped)
-        scn2 = {"ws": ws, "symlinks": W.symlinks_for(ws)}
+        # layout of the text (C03 says it is irrelevant): in definitions that no raw injection touched, @sealed may come before the
+        # attributes - a request section then ends with an attribute right above the `---` marker
+        touched_ids = {id(d) for d, _v in touched_raw}
+        frng = random.Random(scn["read_seed"] ^ 0x5EA1)
+        fmt = {}
+        for r0 in ws["roots"]:
+            for d0 in r0["defs"]:
+                if id(d0) not in touched_ids and frng.random() < 0.5:
+                    fmt[T.def_key(d0)] = {"seal_first": True, "final_nl": frng.random() < 0.7}
+        scn2 = {"ws": ws, "symlinks": W.symlinks_for(ws), "fmt": fmt}
+        out.stats["definitions_with_sealed_first"] += len(fmt)
         w = World(scn2)
         try:
             reached = False
